@@ -3784,7 +3784,7 @@ def _create_partitioned_array_from_form(
                 field_names = recordlookup
                 fields = contents
             else:
-                start, stop = offsets[row_group], offsets[row_group + 1]
+                start, stop = offsets[length_index], offsets[length_index + 1]
                 field_names = [x[0] for x in partition_columns] + recordlookup
                 fields = [x[1][start:stop] for x in partition_columns] + contents
             recordarray = ak.layout.RecordArray(fields, field_names, length)
